@@ -76,6 +76,18 @@ func (fr *Frame) execCallWith(instr ssa.Instruction, call *ssa.CallCommon, fnv *
 		callee = fnv.Clo.Fn
 		bind = fnv.Clo.Bind
 	}
+	if callee == nil && fnv != nil && fnv.T != nil {
+		// a function value that may be one of the closures created in this function: dispatch on identity
+		var cands []*Val
+		for _, cv := range fr.closures {
+			if types.Identical(cv.Clo.Fn.Signature, sig) && len(cv.Clo.Fn.Blocks) > 0 {
+				cands = append(cands, cv)
+			}
+		}
+		if len(cands) > 0 {
+			return fr.dispatchClosures(instr, cands, fnv, args, st, reach, rt)
+		}
+	}
 	if callee == nil {
 		// unknown function value: pure, total, uninterpreted
 		v, err := c.applyFuncValue(fnv, args, sig)
@@ -751,4 +763,40 @@ func sortedKeys(m map[string]bool) []string {
 	}
 	sort.Strings(out)
 	return out
+}
+
+// dispatchClosures executes a call of a function value that is one of the given closures (by identity);
+// if it is none of them, nothing is known after the call.
+func (fr *Frame) dispatchClosures(instr ssa.Instruction, cands []*Val, fnv *Val, args []*Val, st *State, reach *Term, rt types.Type) *Val {
+	c := fr.c
+	var states []*State
+	var conds []*Term
+	var results []*Val
+	var none []*Term
+	for _, cv := range cands {
+		cond := tEq(fnv.T, cv.T)
+		g := c.sc.freshConst("isclo", SBool)
+		c.sc.assert(tEq(g, tAnd(reach, cond)))
+		s2 := st.clone()
+		r := fr.inline(instr, cv.Clo.Fn, cv.Clo.Bind, args, s2, g, rt)
+		states = append(states, s2)
+		conds = append(conds, g)
+		results = append(results, r)
+		none = append(none, tNot(cond))
+	}
+	// residual: unknown function
+	rg := c.sc.freshConst("isclo_none", SBool)
+	c.sc.assert(tEq(rg, tAnd(append([]*Term{reach}, none...)...)))
+	s3 := st.clone()
+	c.havocAll(s3, rg, nil)
+	c.V.assumeGlobalAxioms(c, s3, rg)
+	states = append(states, s3)
+	conds = append(conds, rg)
+	results = append(results, c.freshVal("dyncall", rt))
+	merged := c.merge("dispatch", states, conds)
+	st.h = merged.h
+	if len(leavesOf(rt)) == 0 {
+		return &Val{Typ: rt}
+	}
+	return fr.joinVals("dispatch", rt, results, conds)
 }
